@@ -119,8 +119,16 @@ func parseSemver(value string) (major, minor, patch int, err error) {
 				"(no prereleases or build metadata).",
 			value)
 	}
-	major, _ = strconv.Atoi(m[1])
-	minor, _ = strconv.Atoi(m[2])
+	var errMajor, errMinor error
+	major, errMajor = strconv.Atoi(m[1])
+	minor, errMinor = strconv.Atoi(m[2])
+	// patch never takes part in a comparison; on overflow Atoi's clamped
+	// value is kept.
 	patch, _ = strconv.Atoi(m[3])
+	if errMajor != nil || errMinor != nil {
+		// A major or minor too large for an int would otherwise be clamped
+		// to MaxInt and compare equal to a different version.
+		return 0, 0, 0, fmt.Errorf("Invalid protocol version %q: component out of range.", value)
+	}
 	return major, minor, patch, nil
 }
